@@ -32,6 +32,7 @@ RULE_KINDS = {
     "roundtrip/": "bounded",
     "keys/fixed-width-fields": "structural",
     "keys/components-as-read": "structural",
+    "passphrase/": "structural",
     "input/binary-formats-unmodified": "structural",
 }
 EXPLANATION = (
@@ -62,6 +63,9 @@ EXPLANATION = (
     "evaluated for every key class vs. the kinds the reader accepts - finite-exhaustive; bounded witness roundtrip/openssh. "
     "[format guessing] s/dispatch/guess-names, format-has-parser, helper-exists - structural; s/dispatch/guess-recognises-written: _guessStringType's tests "
     "evaluated on every type tag / armour line / bracket the writers can emit (finite tables) - finite-exhaustive. "
+    "[passphrase] passphrase/bytes-pass-through: the normaliser the Key methods send a passphrase through re-binds / rewrites it only on the isinstance(.., str) "
+    "branch and returns the argument itself otherwise; no Key method applies a rewriting method to a passphrase parameter - structural (CFG paths avoiding the str "
+    "edge); bounded witness: the v1 round trip with a non-UTF-8 bytes passphrase. "
     "[input provenance] input/binary-formats-unmodified: between fromString's parameter and a binary-format parser nothing trims / slices the data unless the "
     "format is known to be textual (CFG paths, parser classification) - structural. "
     "Bounded evidence only: value-level equality of the parsed key (type, components, public blob) after a round trip through the stand-in cryptography "
@@ -208,6 +212,9 @@ def check(ctx):
         _components_as_read(ctx)
     with ctx.section('provenance/binary-input'):
         _provenance(ctx)
+    from sa.props._lib_h import abstain
+    with abstain(ctx, 'passphrase/bytes-pass-through', 'roundtrip/openssh (bounded: non-UTF-8 bytes passphrase)'):
+        _passphrase_passthrough(ctx)
 
 # ---- primitives: the four functions are evaluated (whitelisted interpreter) against RFC 4251 references -------------
 
@@ -444,14 +451,16 @@ def _key_roundtrips(ctx):
                    ("private OpenSSH v1", priv, lambda k: cm(k, "toString", "openssh", subtype="v1"), {}, {}),
                    ("private OpenSSH v1 with comment", priv, lambda k: cm(k, "toString", "openssh", subtype="v1", comment=b"me"), {}, {}),
                    ("private OpenSSH v1 with passphrase", priv, lambda k: cm(k, "toString", "openssh", subtype="v1", passphrase=b"secret"), {"passphrase": b"secret"}, {}),
-                   ("private OpenSSH v1 with str passphrase", priv, lambda k: cm(k, "toString", "openssh", subtype="v1", passphrase="sécret"), {"passphrase": "sécret"}, {})]
+                   ("private OpenSSH v1 with str passphrase", priv, lambda k: cm(k, "toString", "openssh", subtype="v1", passphrase="sécret"), {"passphrase": "sécret"}, {}),
+                   # a bytes passphrase is an opaque secret: not necessarily text in any encoding
+                   ("private OpenSSH v1 with non-UTF-8 bytes passphrase", priv, lambda k: cm(k, "toString", "openssh", subtype="v1", passphrase=b"\xfc\xff"), {"passphrase": b"\xfc\xff"}, {})]
         if ktype != "Ed25519":
             routes += [("private OpenSSH PEM", priv, lambda k: cm(k, "toString", "openssh", subtype="PEM"), {}, {}),
                        ("private OpenSSH PEM with passphrase", priv, lambda k: cm(k, "toString", "openssh", subtype="PEM", passphrase=b"secret"), {"passphrase": b"secret"}, {})]
         first_of_type = ktype not in seen_types
         seen_types.add(ktype)
         for route, key, ser, parse_kw, _ in routes:
-            if ctx.tier != "thorough" and not first_of_type and any(w in route for w in ("with comment", "str passphrase", "(type 'blob')", "PEM with passphrase")):
+            if ctx.tier != "thorough" and not first_of_type and any(w in route for w in ("with comment", "str passphrase", "non-UTF-8", "(type 'blob')", "PEM with passphrase")):
                 continue        # quick tier: the option variants are run for the first key of each type only
             n_trips += 1
             # keys of a class with its own known behaviour are reported under their own construct, so that a finding about them cannot hide a new fault of the others
@@ -569,6 +578,60 @@ def _fixed_width(ctx):
                 ctx.check(not dep, "keys/fixed-width-fields", f"{QK}{name} | {src(x)[:60]}",
                           f"a field is cut at a position computed from its content ({src(dep[0])[:40] if dep else ''})")
     ctx.floor("keys/fixed-width-fields", n_fields, 5, "cuts of length-prefixed fields")
+
+
+def _passphrase_passthrough(ctx):
+    """A passphrase supplied as bytes reaches the KDF / cipher byte for byte: only the str branch of the normaliser may rewrite (normalise + encode) it."""
+    from sa.props._lib_h import assigned_pairs, def_nodes, edge_path, stmts as cfg_stmts
+    mod = ctx.mod(KY)
+    kcls = ctx.cls(KY, "Key")
+    # the functions a passphrase parameter is sent through: `passphrase = f(passphrase)` in a method of Key
+    norms = set()
+    n_sites = 0
+    for name, fn in methods(kcls).items():
+        pnames = {a.arg for a in fn.args.args if "passphrase" in a.arg.lower()}
+        for st in statements(fn):
+            if isinstance(st, ast.Assign) and isinstance(st.value, ast.Call) and isinstance(st.value.func, ast.Name) and len(st.value.args) == 1 \
+                    and isinstance(st.value.args[0], ast.Name) and st.value.args[0].id in pnames:
+                h = mod.find(st.value.func.id)
+                if isinstance(h, ast.FunctionDef) and getattr(h, "_parent", None) is mod.tree:
+                    norms.add(h.name)
+        # outside those functions nothing rewrites the passphrase
+        for c in ast.walk(fn):
+            if isinstance(c, ast.Call) and isinstance(c.func, ast.Attribute) and isinstance(c.func.value, ast.Name) and c.func.value.id in pnames \
+                    and c.func.attr in (_MODIFIERS | {"encode"}) - {"join"}:
+                n_sites += 1
+                ctx.check(False, "passphrase/bytes-pass-through", f"{QK}{name} | {src(c)[:50]}", f"{name} rewrites the passphrase ({src(c)[:50]}) on its way to the key derivation")
+    ctx.need(norms, "the passphrase normaliser called as `passphrase = f(passphrase)`")
+    for hname in sorted(norms):
+        h = mod.find(hname)
+        ctx.functions.add(f"{KY}:{hname}")
+        p = h.args.args[0].arg
+        g = ctx.cfg(h)
+        q = f"twisted.conch.ssh.keys.{hname}"
+        str_T = []
+        for t in g.ids(lambda n: n.kind == "test"):
+            e = g.node(t).ast
+            neg = isinstance(e, ast.UnaryOp) and isinstance(e.op, ast.Not)
+            e2 = e.operand if neg else e
+            if isinstance(e2, ast.Call) and dotted(e2.func) == "isinstance" and len(e2.args) == 2 and src(e2.args[0]) == p and src(e2.args[1]) == "str":
+                str_T.append((t, "F" if neg else "T"))
+        ctx.need(str_T, f"{hname}: isinstance({p}, str) test")
+        rets = cfg_stmts(g, lambda st: isinstance(st, ast.Return))
+        for d in def_nodes(g, p):
+            n_sites += 1
+            on_bytes_path = edge_path(g, [g.entry], [d], avoid_edges=str_T) is not None and edge_path(g, [d], rets + [g.exit], avoid_edges=str_T) is not None
+            ctx.check(not on_bytes_path, "passphrase/bytes-pass-through", ctx.construct(q, g.node(d).ast),
+                      f"{hname} re-binds a passphrase that is not a str ({g.node(d).text()[:50]}): a bytes passphrase is an opaque secret and must reach the key derivation "
+                      "byte for byte - decoding / normalising it makes keys protected with non-UTF-8 passphrases unreadable and unwritable")
+        for r in rets:
+            if edge_path(g, [g.entry], [r], avoid_edges=str_T) is None:
+                continue
+            n_sites += 1
+            v = g.node(r).ast.value
+            ctx.check(v is not None and src(v) in (p, f"bytes({p})"), "passphrase/bytes-pass-through", ctx.construct(q, g.node(r).ast),
+                      f"for a passphrase that is not a str {hname} returns {src(v)[:40] if v is not None else None} instead of the passphrase itself")
+    ctx.floor("passphrase/bytes-pass-through", n_sites, 1, "returns on the non-str path")
 
 
 def _components_as_read(ctx):
@@ -843,6 +906,10 @@ MUTANTS = [
            expect_rule="s/primitive/offsets"),
     Mutant("parser-arguments-collected-in-a-list-stripped", KY, '            return method(data)\n        else:\n            return method(data, passphrase)\n',
            '            arguments = [data.strip()]\n        else:\n            arguments = [data.strip(), passphrase]\n        return method(*arguments)\n', expect_rule="input/binary-formats-unmodified"),
+    # a bytes passphrase is an opaque secret
+    Mutant("bytes-passphrase-trimmed-by-the-normaliser", KY, '    else:\n        return passphrase\n\n\n', '    else:\n        return passphrase.strip() if passphrase else passphrase\n\n\n', expect_rule="passphrase/bytes-pass-through"),
+    Mutant("bytes-passphrase-decoded-by-the-normaliser", KY, "    if isinstance(passphrase, str):\n        # The Normalization Process", "    if isinstance(passphrase, bytes):\n        passphrase = passphrase.decode(\"ascii\")\n    if isinstance(passphrase, str):\n        # The Normalization Process",
+           expect_rule="roundtrip/openssh"),
 ]
 SILENT = [
     Silent("ec-point-to_bytes-fixed-width", KY, "                    + utils.int_to_bytes(data[\"x\"], byteLength)\n                    + utils.int_to_bytes(data[\"y\"], byteLength)\n",
@@ -861,4 +928,5 @@ SILENT = [
     Silent("getNS-named-offsets", CM, "        ns.append(s[c + 4 : 4 + l + c])\n        c += 4 + l\n", "        start = c + 4\n        end = start + l\n        ns.append(s[start:end])\n        c = end\n"),
     Silent("parser-arguments-collected-in-a-list", KY, '            return method(data)\n        else:\n            return method(data, passphrase)\n',
            '            arguments = [data]\n        else:\n            arguments = [data, passphrase]\n        return method(*arguments)\n'),
+    Silent("normaliser-with-the-str-test-inverted", KY, "    if isinstance(passphrase, str):\n        # The Normalization Process", "    if not isinstance(passphrase, str):\n        return passphrase\n    if True:\n        # The Normalization Process"),
 ]
